@@ -11,13 +11,24 @@ ID = "C02"
 HARNESSES = [dict(name="pppoe", pkg="./internal/pppoe/", test="TestVerifC02", timeout=900,
                   files=[("internal/pppoe/zz_verif_c02_test.go", "harness/C02/zz_verif_c02_test.go"),
                          ("pkg/allocator/zz_verif_c02_snap.go", "harness/C02/zz_verif_c02_alloc_snap.go"),
+                         ("plugins/dhcp4/local/zz_verif_c02_snap.go", "harness/C02/zz_verif_c02_dhcp4_snap.go")]),
+             # stage B: the real ipoe.Component driven with fakes (cases starting with "B ")
+             dict(name="ipoe", pkg="./internal/ipoe/", test="TestVerifC02IPoE", timeout=900,
+                  files=[("internal/ipoe/zz_verif_c02_ipoe_test.go", "harness/C02/zz_verif_c02_ipoe_test.go"),
+                         ("pkg/allocator/zz_verif_c02_snap.go", "harness/C02/zz_verif_c02_alloc_snap.go"),
                          ("plugins/dhcp4/local/zz_verif_c02_snap.go", "harness/C02/zz_verif_c02_dhcp4_snap.go")])]
-# repaired = no defect, defective = the code today (all four); the remaining combinations of the four recorded
-# defects (flags: constant fall-back, unchecked release, expiry take-over release, untracked statics) keep the
-# check meaningful while fix patches are applied one at a time.
-VARIANTS = ["repaired", "defective"] + ["v%d%d%d%d%d" % t for t in
-                                        __import__("itertools").product((0, 1), repeat=5)
-                                        if sum(t) not in (0, 5)]
+
+
+def route(case):
+    return "ipoe" if case.startswith("B ") else "pppoe"
+def _v(fixed):
+    return "v" + "".join("0" if i in fixed else "1" for i in range(1, 7))
+
+
+# repaired = no defect, defective = the code today (all six flags); then "one defect fixed" for each flag and the
+# combinations of the defects for which fixes/C02_*.patch exist (flags 1 and 3), so the check keeps passing
+# while the lead applies those patches in any order.
+VARIANTS = ["repaired", "defective"] + [_v({i}) for i in range(1, 7)] + [_v({1, 3})]
 MODEL_NEEDS_IMPL = True
 RULE = ("random configurations: 1-3 IPv4 pools (0-3 addresses, exclusions, two profiles, VRFs 0/1, globally disjoint "
         "ranges, sometimes one containing 100.64.0.1), 0-2 IA_NA pools, 0-2 PD pools (/63 or /62 -> /64); 2-5 "
@@ -167,9 +178,58 @@ def gen_one(rng):
     return " ".join(toks) + " ; " + " ; ".join(ops)
 
 
+def gen_b(rng):
+    """stage B: component-level history for the real ipoe.Component"""
+    toks = ["B", "V", "queue" if rng.random() < 0.3 else "imm"]
+    queue = toks[2] == "queue"
+    pools = []
+    for i in range(rng.choice([1, 1, 2])):
+        lo = V4BASE + 256 * (i + 1) + 1
+        size = rng.choice([1, 1, 2, 3])
+        toks += ["P4", str(i + 1), str(rng.choice([0, 0, 1])), str(rng.choice([0, 0, 1])), str(lo), str(lo + size - 1), "-"]
+        pools.append((i + 1, lo, lo + size - 1))
+    toks += ["G", "0", "0", "-", "G", "1", "1", "-"]
+    ns = rng.randint(2, 4)
+    for k in range(1, ns + 1):
+        toks += ["S", str(k), "I", str(rng.choice([0, 0, 1])), str(k)]
+    ops = []
+    for _ in range(rng.randint(6, 18)):
+        k = rng.randint(1, ns)
+        r = rng.random()
+        if r < 0.25:
+            ops.append("BD %d" % k)
+        elif r < 0.45:
+            ops.append("BQ %d" % k)
+        elif r < 0.70:
+            st = "-"
+            c = rng.random()
+            if c < 0.25:
+                p = rng.choice(pools)
+                st = str(rng.randint(p[1], p[2] + 1))
+            elif c < 0.32:
+                st = str(V4BASE + 200 * 256 + 200)  # in the provider's /16, in no pool
+            ov = str(rng.choice(pools)[0]) if rng.random() < 0.15 else "-"
+            ops.append("BA %d %d %s %s" % (k, rng.choice([0, 0, 1]), st, ov))
+        elif r < 0.75:
+            ops.append("BJ %d" % k)
+        elif r < 0.87:
+            if queue:
+                ops.append("BC" if rng.random() < 0.7 else "BC rev")
+            ops.append("BR %d %s" % (k, "self" if rng.random() < 0.8 else str(V4BASE + 999)))
+        elif r < 0.94:
+            if queue:
+                ops.append("BC")
+            ops.append("BT %d" % k)
+        elif r < 0.97:
+            ops.append("BX %d" % k)
+        else:
+            ops.append("BC" if rng.random() < 0.6 else "BC rev")
+    return " ".join(toks) + " ; " + " ; ".join(ops)
+
+
 def gen_cases(rng, tier, budget):
     n = budget or (700 if tier == "quick" else 20000)
-    return [gen_one(rng) for _ in range(n)]
+    return [gen_one(rng) for _ in range(n)] + [gen_b(rng) for _ in range(n // 2)]
 
 
 # ------------------------------------------------------------------ parsing helpers
@@ -198,6 +258,8 @@ def case_pools(case):
             i += 4
         elif t[i] == "S":
             i += 5
+        elif t[i] == "V":
+            i += 2
         else:
             i += 1
     return out
@@ -290,7 +352,80 @@ def first_diff(a, b):
     return None
 
 
+def classify_b(case, impl, model):
+    d = first_diff(impl, model)
+    where = ""
+    if d:
+        ops = case_ops(case)
+        opt = " ".join(ops[d[0] - 1]) if 0 < d[0] <= len(ops) else "init"
+        where = " first difference at event #%d (%s): impl=%r model=%r" % (d[0], opt, d[1][:300], d[2][:300])
+    if impl.startswith("panic") or impl.startswith("hang"):
+        return "P", "ipoe component " + impl[:200]
+    # component-level monitor: an address told to two subscribers that both still exist
+    told, gone = {}, set()
+    for k, (o, seg) in enumerate(zip(case_ops(case), segs(impl)[1:]), start=1):
+        head = seg.split(" | ")[0].split()
+        if len(o) > 1 and "rec=gone" in head:
+            gone.add(o[1])
+            told.pop(o[1], None)
+        if len(o) > 1 and len(head) > 1:
+            for t in head[1].split(","):
+                if ":" in t:
+                    a = t.split(":")[1]
+                    for other, b in told.items():
+                        if other != o[1] and a == b:
+                            return "P", "subscribers %s and %s are both told %s (event #%d);%s" % (other, o[1], a, k, where)
+                    told[o[1]] = a
+    return "G", "ipoe component and model disagree;" + where
+
+
+def signature_b(case, impl, models):
+    d = first_diff(impl, models["repaired"])
+    if not d:
+        return "none"
+    k, iseg, mseg = d
+    ops = case_ops(case)
+    if not (0 < k <= len(ops)):
+        return "other:init"
+    o = ops[k - 1]
+    ires, mres = iseg.split(" | ")[0], mseg.split(" | ")[0]
+    il, ml = leases_of(iseg), leases_of(mseg)
+    isnap, msnap = iseg.split(" | ")[1:], mseg.split(" | ")[1:]
+    if o[0] in ("BA", "BC") and isnap == msnap and "ack:" in ires and ires.split(" rec=")[0] == mres.split(" rec=")[0]:
+        return "ipoe-pending-request-ack-not-recorded"
+    if o[0] in ("BR", "BT"):
+        lost = [s for key, s in ml.items() if key not in il]
+        if lost:
+            return "release-frees-foreign-lease"
+        return "other:release"
+    if o[0] in ("BD", "BQ", "BA", "BC"):
+        mr, ir = mres.split()[1], ires.split()[1]
+        if il == ml and mr == "." and "panic" in ir:
+            return "dhcp4-unresolved-nil-pool-panic"
+        if il == ml and ir != mr and len(ir) > len(mr):
+            # the component answered although resolution failed: stale lease-table answer, or a static address
+            # outside every pool that another subscriber of the VRF already holds
+            if any(x[0] == "BA" and len(x) > 3 and x[3] != "-" and x[1] == o[1] for x in ops[:k]) and "ack:" not in mr and "offer:" not in mr and _static_outside(case, ops[:k], o[1]):
+                return "static-outside-pools-untracked"
+            return "dhcp4-unresolved-answered-from-lease-table"
+        lost = [s for key, s in ml.items() if key not in il]
+        if lost and any(x[0] == "BX" for x in ops[:k - 1]):
+            return "dhcp4-expiry-takeover-frees-current-owner"
+    return "other:" + o[0]
+
+
+def _static_outside(case, ops, sub):
+    pools = case_pools(case)
+    for x in reversed(ops):
+        if x[0] == "BA" and x[1] == sub and len(x) > 3 and x[3] != "-":
+            a = int(x[3])
+            return not any(f == "4" and lo <= a <= hi for f, lo, hi in pools)
+    return False
+
+
 def classify(case, impl, model):
+    if case.startswith("B "):
+        return classify_b(case, impl, model)
     m = monitor(case, impl)
     d = first_diff(impl, model)
     where = ""
@@ -306,6 +441,8 @@ def classify(case, impl, model):
 
 
 def signature(case, impl, models):
+    if case.startswith("B "):
+        return signature_b(case, impl, models)
     d = first_diff(impl, models["repaired"])
     if not d:
         return "none"
@@ -349,7 +486,7 @@ def shrink(case):
     # drop one configuration item (pool / session)
     t = cfg.split()
     items, i = [], 0
-    size = {"P4": 7, "P6": 6, "PD": 7, "G": 4, "S": 5}
+    size = {"P4": 7, "P6": 6, "PD": 7, "G": 4, "S": 5, "V": 2, "B": 1}
     while i < len(t):
         k = size.get(t[i], 1)
         items.append(t[i:i + k])
@@ -361,6 +498,8 @@ def shrink(case):
 
 
 def nontrivial(case, impl):
+    if case.startswith("B "):
+        return sum(1 for s in segs(impl) if "offer:" in s or "ack:" in s) >= 2
     told = sum(1 for s in segs(impl) if s.startswith(("pa ", "id offer", "iq ack", "is adv")) and "told=nil" not in s)
     rel = sum(1 for s in segs(impl) if s.startswith(("pt", "ir", "it")))
     return told >= 2 and rel >= 1
@@ -368,7 +507,16 @@ def nontrivial(case, impl):
 
 def distribution(cases, impl):
     d = {}
+    d["stageB_cases"] = sum(1 for c in cases if c.startswith("B "))
     for c, o in zip(cases, impl):
+        if c.startswith("B "):
+            for s in segs(o)[1:]:
+                r = s.split(" | ")[0].split()
+                k = "B:" + (r[0] if r else "?")
+                if len(r) > 1 and ":" in r[1]:
+                    k += ":reply"
+                d[k] = d.get(k, 0) + 1
+            continue
         for s in segs(o)[1:]:
             r = s.split(" | ")[0].split()
             k = r[0] if r else "?"
@@ -378,5 +526,5 @@ def distribution(cases, impl):
                 k += ":fallback" if "told=%d" % FALLBACK in s else (":none" if "told=nil" in s else ":addr")
             d[k] = d.get(k, 0) + 1
     d["cases"] = len(cases)
-    d["monitor_violations"] = sum(1 for c, o in zip(cases, impl) if monitor(c, o))
+    d["monitor_violations"] = sum(1 for c, o in zip(cases, impl) if not c.startswith("B ") and monitor(c, o))
     return d
